@@ -162,8 +162,20 @@ func (f *frame) callFunc(fn *ssa.Function, args []Val, bindings []Val, c *ssa.Ca
 	if strings.HasPrefix(name, "(*github.com/sirupsen/logrus.") || strings.HasPrefix(name, "github.com/sirupsen/logrus.") ||
 		strings.HasPrefix(name, "github.com/containerd/log.") || strings.HasPrefix(name, "(*github.com/containerd/nri/pkg/log.") ||
 		strings.HasPrefix(name, "github.com/containerd/nri/pkg/log.") {
+		// logging: arbitrary well-formed result (e.g. a derived *Entry), nothing else
 		x.vc.Assume["logging calls have no effect on verified state"] = true
-		return x.vc.zeroVal(fn.Signature.Results())
+		if fn.Signature.Results().Len() == 0 {
+			return x.vc.zeroVal(fn.Signature.Results())
+		}
+		res := x.fixPtrs(x.vc.freshVal(fn.Signature.Results(), "log."+fn.Name()))
+		na := x.vc.Const("alloc.call", "Int")
+		f.assume(app(">=", na, x.heap.alloc(f.st)))
+		f.st.heap[allocKey] = na
+		f.assume(x.heap.valAssume(f.st, res))
+		if fn.Signature.Results().Len() == 1 {
+			return res.Fs[0]
+		}
+		return res
 	}
 	if ct := x.prog.Contracts[fn]; ct != nil && !ct.Inline {
 		return f.callContract(ct, fn.Signature, args, pos, funcKey(fn), bindings...)
